@@ -170,3 +170,20 @@ func hookedReq(always []string, hooked ...string) []string {
 	}
 	return always
 }
+
+// intsThatFit returns the values that an int of this platform can hold (the
+// harness is also built for GOARCH=386; values above 2^31-1 are clamped to
+// the largest int there, once).
+func intsThatFit(vals ...int64) []int {
+	var out []int
+	clamped := false
+	for _, v := range vals {
+		if int64(int(v)) == v {
+			out = append(out, int(v))
+		} else if !clamped {
+			out = append(out, int(^uint(0)>>1))
+			clamped = true
+		}
+	}
+	return out
+}
